@@ -26,21 +26,21 @@ const (
 type coord struct {
 	p *engine.Prog
 
-	shardInfo                                               *types.Named
-	fChangeAble, fShard, fRuntime, fScraping, fNewTargets   *types.Var
-	fMaxHead, fMaxProc, fMaxShard, fMinShard, fMaxIdle      *types.Var
-	fHeadSpace, fProcSpace                                  *types.Var
-	fHead, fProc, fCfgHash, fIdleStart                      *types.Var // shard.RuntimeInfo
-	fSeries, fTotal, fState, fTimes, fHealth                *types.Var // target.ScrapeStatus
+	shardInfo                                                               *types.Named
+	fChangeAble, fShard, fRuntime, fScraping, fNewTargets                   *types.Var
+	fMaxHead, fMaxProc, fMaxShard, fMinShard, fMaxIdle                      *types.Var
+	fHeadSpace, fProcSpace                                                  *types.Var
+	fHead, fProc, fCfgHash, fIdleStart                                      *types.Var // shard.RuntimeInfo
+	fSeries, fTotal, fState, fTimes, fHealth                                *types.Var // target.ScrapeStatus
 	mTargetStatus, mRuntimeInfo, mUpdateConfig, mUpdateTarget, mUpdateExtra *types.Func
-	mShards, mChangeScale                                   *types.Func
+	mShards, mChangeScale                                                   *types.Func
 
 	funcs []*ssa.Function // all functions of pkg/coordinator (incl. closures)
 
-	mapWrites  []*ssa.MapUpdate // m[k]=v with m loaded from shardInfo.scraping
-	mapDeletes []*ssa.Call      // delete(m,k) with m loaded from shardInfo.scraping
-	fieldStores []*ssa.Store    // whole-field stores to shardInfo.scraping
-	filters    map[*ssa.Function]bool // []*shardInfo -> []*shardInfo keeping only changeAble elements
+	mapWrites    []*ssa.MapUpdate       // m[k]=v with m loaded from shardInfo.scraping
+	mapDeletes   []*ssa.Call            // delete(m,k) with m loaded from shardInfo.scraping
+	fieldStores  []*ssa.Store           // whole-field stores to shardInfo.scraping
+	filters      map[*ssa.Function]bool // []*shardInfo -> []*shardInfo keeping only changeAble elements
 	listBuilders map[*ssa.Function]bool // functions returning the unfiltered list (one shardInfo per shard)
 }
 
